@@ -12,7 +12,7 @@ use wire::validate::*;
 use wire::*;
 use wtransport::endpoint::ConnectOptions;
 
-const RULE: &str = "scenario = session setup from the C02 generator (URL, 0..12 header fields, server decision) with the wtransport endpoint in either role against a recording raw peer, followed by 0..6 application streams (uni/bidi, generated payloads), 0..4 datagrams error paths while the application keeps accepting (uni / bidi streams naming a foreign session -> STOP_SENDING WEBTRANSPORT_BUFFERED_STREAM_REJECTED; a plain GET request -> STOP_SENDING H3_REQUEST_REJECTED) and a final Connection::close(code, reason) or a connection error provoked by the raw peer (DATA on its control stream, second control stream, FIN of its control stream, invalid session id) whose CONNECTION_CLOSE code must be the registered one; session ids 0, 256 and 4 x (1..90) with 62 / 63 / 64 burnt request streams preferred (1-/2-byte boundary of the quarter stream id); the recording peer advertises the default or a small per-stream receive window (1..400 bytes), so that SETTINGS, HEADERS, stream headers and payloads are written across flow-control boundaries. Everything the endpoint opened or sent is decoded with the reference codec: exactly one control stream whose first frame is a single SETTINGS (ENABLE_WEBTRANSPORT=1, H3_DATAGRAM=1, ENABLE_CONNECT_PROTOCOL=1, QPACK capacity/blocked absent or 0, no id twice, no reserved id, no second SETTINGS, nothing that is not a frame); request / response field sections with prefix (0,0), static or literal representations only, pseudo-fields first, the five request pseudo-fields resp. a 3-digit :status; every WT uni stream 0x54||session||bytes, every WT bidi stream 0x41||session||bytes, every datagram quarter-id||payload; the close code and reason the peer sees are the application's; ALPN is exactly h3. Non-trivial: the endpoint emitted >= 1 HEADERS and >= 1 WT stream or datagram; distinct = distinct scenario";
+const RULE: &str = "scenario = session setup from the C02 generator (URL, 0..12 header fields, server decision) with the wtransport endpoint in either role against a recording raw peer, followed by 0..6 application streams (uni/bidi, generated payloads), 0..4 datagrams error paths while the application keeps accepting (uni / bidi streams naming a foreign session -> STOP_SENDING WEBTRANSPORT_BUFFERED_STREAM_REJECTED; a plain GET request -> STOP_SENDING H3_REQUEST_REJECTED) and a final Connection::close(code, reason) or a connection error provoked by the raw peer (DATA on its control stream, second control stream, FIN of its control stream, invalid session id, or a clean close capsule answered with H3_NO_ERROR) whose CONNECTION_CLOSE code must be the registered one; session ids 0, 256 and 4 x (1..90) with 62 / 63 / 64 burnt request streams preferred (1-/2-byte boundary of the quarter stream id); the recording peer advertises the default or a small per-stream receive window (1..400 bytes), so that SETTINGS, HEADERS, stream headers and payloads are written across flow-control boundaries. Everything the endpoint opened or sent is decoded with the reference codec: exactly one control stream whose first frame is a single SETTINGS (ENABLE_WEBTRANSPORT=1, H3_DATAGRAM=1, ENABLE_CONNECT_PROTOCOL=1, QPACK capacity/blocked absent or 0, no id twice, no reserved id, no second SETTINGS, nothing that is not a frame); request / response field sections with prefix (0,0), static or literal representations only, pseudo-fields first, the five request pseudo-fields resp. a 3-digit :status; every WT uni stream 0x54||session||bytes, every WT bidi stream 0x41||session||bytes, every datagram quarter-id||payload; the close code and reason the peer sees are the application's; ALPN is exactly h3. Non-trivial: the endpoint emitted >= 1 HEADERS and >= 1 WT stream or datagram; distinct = distinct scenario";
 
 #[derive(Clone, Debug, Serialize, Deserialize)]
 pub struct Case {
@@ -38,11 +38,12 @@ pub struct Case {
     /// 2 a plain GET request (server role: STOP_SENDING H3_REQUEST_REJECTED)
     #[serde(default)]
     pub err_paths: Vec<u8>,
-    /// how the connection ends (mod 5): 0 the application's close(code, reason); otherwise the raw
+    /// how the connection ends (mod 6): 0 the application's close(code, reason); otherwise the raw
     /// peer provokes a connection error whose registered code must appear in CONNECTION_CLOSE:
     /// 1 DATA on its control stream (H3_FRAME_UNEXPECTED), 2 a second control stream
     /// (H3_STREAM_CREATION_ERROR), 3 FIN of its control stream (H3_CLOSED_CRITICAL_STREAM),
-    /// 4 a WebTransport stream with an invalid session id (H3_ID_ERROR)
+    /// 4 a WebTransport stream with an invalid session id (H3_ID_ERROR), 5 the peer ends the
+    /// session with a close capsule and the endpoint closes the connection with H3_NO_ERROR
     #[serde(default)]
     pub final_error: u8,
 }
@@ -57,7 +58,7 @@ pub fn case_strategy() -> impl Strategy<Value = Case> {
         prop_oneof![Just(0u64), Just(0x100), any::<u32>().prop_map(|v| v as u64), 0u64..(1 << 62)],
         proptest::collection::vec(any::<u8>(), 0..30),
         prop_oneof![3 => Just(0u16), 1 => Just(1u16), 1 => Just(4), 1 => Just(11), 1 => Just(24), 1 => 2u16..400],
-        (prop_oneof![6 => Just(0u16), 2 => Just(63u16), 1 => Just(62), 1 => Just(64), 1 => Just(15), 1 => Just(16), 1 => 1u16..90], prop_oneof![2 => Just(Vec::new()), 1 => proptest::collection::vec(0u8..3, 1..4)], prop_oneof![3 => Just(0u8), 1 => 1u8..5]),
+        (prop_oneof![6 => Just(0u16), 2 => Just(63u16), 1 => Just(62), 1 => Just(64), 1 => Just(15), 1 => Just(16), 1 => 1u16..90], prop_oneof![2 => Just(Vec::new()), 1 => proptest::collection::vec(0u8..3, 1..4)], prop_oneof![3 => Just(0u8), 1 => 1u8..6]),
     )
         .prop_map(|(mut setup, wt_is_client, high_session, mut streams, datagrams, close_code, close_reason, peer_window, (burn, err_paths, final_error))| {
             // every window update costs a round trip: with a small peer window keep every frame and
@@ -102,6 +103,7 @@ async fn exec_async(case: Arc<Case>) -> CaseResult {
     let recorder: Recorder;
     let mut _keep: Vec<Box<dyn std::any::Any + Send>> = Vec::new();
     let mut raw_control: quinn::SendStream;
+    let mut raw_req_send: quinn::SendStream;
     let raw_tuning = Tuning { stream_receive_window: if case.peer_window > 0 { Some(case.peer_window as u32) } else { None }, ..Default::default() };
     if case.wt_is_client {
         // wtransport client against a raw server that records everything, including the request stream
@@ -181,7 +183,8 @@ async fn exec_async(case: Arc<Case>) -> CaseResult {
         session = sid;
         recorder = rec;
         raw_control = control;
-        _keep.push(Box::new((client_ep, raw_ep, send)));
+        raw_req_send = send;
+        _keep.push(Box::new((client_ep, raw_ep)));
     } else {
         // raw client against the wtransport server; the raw client reads the response itself
         let server_ep = wt_server(&Tuning::default());
@@ -280,7 +283,8 @@ async fn exec_async(case: Arc<Case>) -> CaseResult {
         session = sid;
         recorder = rec;
         raw_control = control;
-        _keep.push(Box::new((server_ep, ep, rs, rr)));
+        raw_req_send = rs;
+        _keep.push(Box::new((server_ep, ep, rr)));
     }
     // ALPN
     match raw_conn.handshake_data().and_then(|h| h.downcast::<quinn::crypto::rustls::HandshakeData>().ok()) {
@@ -382,8 +386,8 @@ async fn exec_async(case: Arc<Case>) -> CaseResult {
             _keep.push(Box::new(s));
         }
         tokio::time::sleep(Duration::from_millis(40)).await;
-        if case.final_error % 5 != 0 {
-            let (want, what) = match case.final_error % 5 {
+        if case.final_error % 6 != 0 {
+            let (want, what) = match case.final_error % 6 {
                 1 => {
                     let _ = raw_control.write_all(&refcodec::enc_frame(refcodec::registry::FRAME_DATA, b"d")).await;
                     (refcodec::registry::H3_FRAME_UNEXPECTED, "DATA on the control stream")
@@ -399,12 +403,20 @@ async fn exec_async(case: Arc<Case>) -> CaseResult {
                     let _ = raw_control.finish();
                     (refcodec::registry::H3_CLOSED_CRITICAL_STREAM, "FIN of the control stream")
                 }
-                _ => {
+                4 => {
                     if let Ok(mut s) = raw_conn.open_uni().await {
                         let _ = s.write_all(&refcodec::enc_uni_header_wt(session + 1)).await;
                         _keep.push(Box::new(s));
                     }
                     (refcodec::registry::H3_ID_ERROR, "a WebTransport stream with an invalid session id")
+                }
+                _ => {
+                    // the peer ends the session cleanly: the endpoint then closes the connection
+                    // itself, and there is no error to signal (RFC 9114 8.1: H3_NO_ERROR)
+                    let cap = refcodec::enc_frame(refcodec::registry::FRAME_DATA, &refcodec::enc_close_capsule(7, b"done"));
+                    let _ = raw_req_send.write_all(&cap).await;
+                    let _ = raw_req_send.finish();
+                    (refcodec::registry::H3_NO_ERROR, "a close capsule from the peer (clean end of the session)")
                 }
             };
             match tokio::time::timeout(Duration::from_secs(5), raw_conn.closed()).await {
